@@ -428,6 +428,8 @@ pub fn run_fuzz_campaign(prop: &str, target: &str, runs: u64, seed: u64) -> Fuzz
         .arg("-len_control=0")
         .arg("-max_len=8192")
         .arg("-print_final_stats=1")
+        // the harness deliberately leaks a RowWriter after a refused write (C03/C04): not a finding
+        .arg("-detect_leaks=0")
         .arg(format!("-artifact_prefix={}/", corpus.display()))
         .env("CARGO_NET_OFFLINE", "true")
         .env("VERIF_FUZZ_PROP", prop)
@@ -480,6 +482,12 @@ pub fn run_fuzz_campaign(prop: &str, target: &str, runs: u64, seed: u64) -> Fuzz
     }
     if out.executions > 0 || out.violation_replay.is_some() {
         out.ran = true;
+        if out.violation_replay.is_none() && out.executions + 1 < runs {
+            // libFuzzer stopped before the requested number of runs without our oracle reporting
+            // anything (a crash inside the harness itself, a sanitizer report, ...): say so
+            let tail: String = text.lines().rev().take(8).collect::<Vec<_>>().into_iter().rev().collect::<Vec<_>>().join(" | ");
+            out.skipped_reason = Some(format!("stopped after {} of {} runs without an oracle verdict: {}", out.executions, runs, tail.chars().take(500).collect::<String>()));
+        }
     } else {
         let tail: String = text.lines().rev().take(6).collect::<Vec<_>>().into_iter().rev().collect::<Vec<_>>().join(" | ");
         out.skipped_reason = Some(format!("campaign did not run (nightly fuzz build unavailable?): {}", tail.chars().take(400).collect::<String>()));
